@@ -311,7 +311,9 @@ def tr_defer(ctx):
             rows += 1
             stranded = sorted(S & frozenset(['Idle', 'Pending']))
             key = '%s|%s->%s' % (nice, '/'.join(sorted(S)), '/'.join(enums) or '-')
-            if stranded:
+            if S == frozenset(['WaitingForPoll']) and own == 'Y':
+                out.append(bad('TR-defer', key + '|own', 'a future that finds the queue parked for itself (WaitingForPoll with its own id) decides to wait: it is the only one who can continue the queue without a pool thread', fn=fname))
+            elif stranded:
                 out.append(bad('TR-defer', key, 'decides not to run the queue while it is %s: nobody is obliged to run it, the caller would wait for ever' % '/'.join(stranded), fn=fname))
             else:
                 out.append(ok('TR-defer', key, 'defers only while the queue is owned or parked', fn=fname))
@@ -556,17 +558,6 @@ def park_wake(ctx):
                 out.append(ok('PARK-wake', key, 'calls %s on every path that found the queue in %s' % (what, st), fn=fname))
             else:
                 out.append(bad('PARK-wake', key, 'a path that finds the queue parked in %s returns without calling %s: the wake-up is dropped and nobody resumes the queue' % (st, what), fn=fname))
-    # whoever takes a queue out of a parked state owes the matching resume action, whatever function it is
-    owes = {('WaitingForUnpark', 'Running'): (2, 'Thread::unpark'), ('WaitingForWake', 'Idle'): (1, 'reschedule_queue')}
-    for (fname, s, s2, role) in sorted(transitions(ctx)):
-        if (s, s2) in owes and role != 'owner' and fname not in need:
-            bit, what = owes[(s, s2)]
-            rows = [(pre, act) for (pre, act) in acts.get(fname, set()) if pre is not None and s in pre]
-            key = '%s|%s->%s' % (short(fname), s, s2)
-            if rows and all(act & bit for (pre, act) in rows):
-                out.append(ok('PARK-wake', key, 'calls %s on every such path' % what, fn=fname))
-            else:
-                out.append(bad('PARK-wake', key, 'moves a queue parked in %s to %s without calling %s: the parked runner (or the pool) never hears of it' % (s, s2, what), fn=fname))
     # latch: a wake that arrives while the job is still being polled (state Running) is remembered ...
     for fname, nice in ((WAKE_QUEUE, 'WakeQueue'), (WAKE_THREAD, 'WakeThread')):
         tr = {(s, s2) for (f, s, s2, role) in transitions(ctx) if f == fname}
@@ -625,6 +616,26 @@ def park_wake(ctx):
         out.append(bad('PARK-wake', 'reschedule_queue|WaitingForPoll', 'a queue parked for a polling task is not put on the schedule when it is woken', fn=RESCHED))
     else:
         out.append(ok('PARK-wake', 'reschedule_queue|WaitingForPoll', 'a woken WaitingForPoll queue is pushed on the schedule and a thread is asked', fn=RESCHED))
+    # the claimers claim what they exist for: the pool takes Pending queues (and parked-for-poll ones, below); a blocked sync caller takes
+    # a queue that became Pending or Idle while it waited
+    acq = defaultdict(set)
+    for (fname, s_, s2_, role_) in transitions(ctx):
+        if role_ == 'acquire':
+            acq[fname].add(s_)
+    for fname, wanted, why in (('desync::SchedulerCore::next_to_run', {'Pending'}, 'a scheduled queue is never picked up by a pool thread'),
+                               ('desync::SchedulerCore::claim_pending_queue', {'Pending', 'Idle'}, 'a sync caller woken because its queue can be claimed does not claim it: with no free pool thread it waits for ever')):
+        got = set()
+        for f2, ss in acq.items():
+            fo = ctx.F.fn(f2)
+            if f2 == fname or (fo is not None and fo.root == fname):
+                got |= ss
+        key = '%s|claims-%s' % (short(fname), '+'.join(sorted(wanted)))
+        if not ctx.F.fn(fname):
+            out.append(undecided('PARK-wake', key, 'anchor not found'))
+        elif wanted <= got:
+            out.append(ok('PARK-wake', key, 'acquires from %s' % ', '.join(sorted(got)), fn=fname))
+        else:
+            out.append(bad('PARK-wake', key, 'no longer acquires a queue that is %s (acquires from: %s): %s' % (' / '.join(sorted(wanted - got)), ', '.join(sorted(got)) or 'nothing', why), fn=fname))
     pool_claims = set()
     for fname, key, snaps in events_of(P, 'writesite'):
         for (s, s2, role, own, len0) in snaps:
